@@ -91,6 +91,21 @@ CLAIMED = {
         note=STATIC_NOTE + 'Species getters are uninterpreted functions of the keyword arguments they accept; fixture '
              'has 2 reactants, 2 products, 1 transition-state species (the loops are uniform in the species).',
         ref='DESIGN.md section 4 C08'),
+    'C09': dict(
+        technique='abstract interpretation of ChemkinReaction/SurfaceReaction/BEP with uninterpreted species; '
+                  'np.max modelled as an uninterpreted extremum whose argument set is compared; normal-form '
+                  'identities for BEP barriers and pre-exponential factors',
+        text='Decides that activation enthalpies/Gibbs energies handed to kinetic files are max(0, TS barrier if any, '
+             'reaction change) in the requested direction under the same conditions (both classes, both directions, '
+             'with/without transition state); that BEP barriers are (slope or slope-1)*descriptor+intercept for all 8 '
+             'descriptors x 2 directions with the named descriptor evaluated, forward minus reverse equal to the '
+             'reaction enthalpy/energy for delta descriptors, the same barrier through a BEP transition-state species '
+             'and identical barrier in the U and H offsets; that A = (kB T/h)exp(dS_act)exp(m) resp. (kB T/h)(q_TS/q_IS)'
+             'exp(m), kB/h without transition state, divided by (effective site density)^(n_surf-1) for sum/min/max/'
+             'mean with 0-2 surface reactants (stoichiometry 1-2).',
+        note=STATIC_NOTE + 'Positivity of A follows from the product shape only for positive inputs and is not '
+             'decided numerically; which user phases count as surface phases is data dependent.',
+        ref='DESIGN.md section 4 C09'),
     'C12': dict(
         technique='table analysis: constant folding of literal tables + abstract interpretation of the '
                   'lookup functions (ast, exact Fractions)',
